@@ -84,6 +84,15 @@ def check_catalog(ctx, d, structures, shape, metadata, fields, ppv, verbose, inf
                     fails.append('row %d field %s = %r, statistic of that structure %r' % (s.idx, f, g, w))
             elif not (close(g, w, 1e-8) or (g != g and w != w)):
                 fails.append('row %d field %s = %r, statistic of that structure %r' % (s.idx, f, g, w))
+            if f == 'area_exact':
+                # independently of the statistic classes: the number of distinct sky positions times the pixel area
+                ax = [i for i in range(len(shape))] if not ppv else [i for i in range(3) if i != int(metadata.get('vaxis', 0))]
+                idx_ = s.indices(subtree=True)
+                nsky = len(set(zip(*[[int(x) for x in idx_[i]] for i in ax])))
+                ss_ = metadata.get('spatial_scale')
+                want_area = nsky * (float(ss_.value) ** 2 if ss_ is not None else 1.0)
+                if not close(g, want_area, 1e-9):
+                    fails.append('row %d area_exact = %r, %d distinct sky pixels x pixel area = %r' % (s.idx, g, nsky, want_area))
             if f == 'flux' and metadata.get('data_unit') == u.Jy:
                 # independently of the statistic classes: the flux of Jy pixels is their sum, in double precision
                 tot = float(np.sum(np.asarray(s.values(subtree=True), dtype=np.float64)))
